@@ -165,7 +165,8 @@ class Scoreboard:
                         if current_idx > eIdx:
                             current_idx = eIdx
 
-                        intervals.append(TimeInterval(self.idxToDate(start), self.idxToDate(current_idx)))
+                        if start < current_idx:
+                            intervals.append(TimeInterval(self.idxToDate(start), self.idxToDate(current_idx)))
                     duration = 0
                     start = 0
             idx += 1
